@@ -34,6 +34,18 @@ def mintedRT (l : Line) (tokKey : String) : C07.RT :=
   { token := str l tokKey, client := str l "o.rtclient", subject := str l "o.rtsub", scopes := list l "o.rtscopes",
     audience := list l "o.rtaud", authTime := int l "o.rtauthtime" }
 
+/-- deep3-C04: the single tokens of a token response as the harness decoded them (`o.idt.*`: the ID token's payload; `o.at.*`: the
+    access token - a JWT's claims, or the record an opaque token resolves to after decryption -; `o.rt*`: the record the storage
+    holds under the refresh token string) -/
+def carriedOfLine (l : Line) : List C04.Carried :=
+  (if has l "o.idt.sub" then
+    [{ kind := "id_token", subject := some (str l "o.idt.sub"), client := some (str l "o.idt.client"), nonce := some (str l "o.idt.nonce") }] else []) ++
+  (if has l "o.at.kind" then
+    [{ kind := "access_token", subject := some (str l "o.at.sub"), client := some (str l "o.at.client"),
+       scopes := if has l "o.at.scopes" then some (list l "o.at.scopes") else none }] else []) ++
+  (if has l "o.at.kind" && has l "o.rt" && has l "o.rtclient" then
+    [{ kind := "refresh_token", subject := some (str l "o.rtsub"), client := some (str l "o.rtclient"), scopes := some (list l "o.rtscopes") }] else [])
+
 /-- the event an observed line stands for (none: nothing the monitors look at) -/
 def parseEvent (l : Line) : Option FlowObs.Event :=
   match str l "op" with
@@ -48,7 +60,8 @@ def parseEvent (l : Line) : Option FlowObs.Event :=
   | "callback" => if str l "obs" == "code" then some (.code (str l "id") (str l "o.code")) else none
   | "exchange" =>
     let obs : Option C04.Tokens := if str l "obs" == "ok" then
-      some { subject := str l "o.sub", client := str l "o.client", scopes := list l "o.scopes", nonce := str l "o.nonce" } else none
+      some { subject := str l "o.sub", client := str l "o.client", scopes := list l "o.scopes", nonce := str l "o.nonce",
+             carried := carriedOfLine l } else none
     let minted : Option C07.RT :=
       if str l "obs" == "ok" && has l "o.rt" then some (mintedRT l "o.rt")
       else if str l "obs" != "ok" && has l "o.minted" then some (mintedRT l "o.minted") else none
